@@ -458,3 +458,237 @@ theorem no_inner_dotdot (q : Str) (h : hasInfix ['.', '.', '/'] q = false) (pre 
   cases this
 
 end Path
+
+/-! ## completeness: clean relative names are accepted -/
+
+namespace Path
+
+/-- Every piece between slashes is empty or an ordinary name (not `.` / `..`). -/
+def CleanSplit (p : Str) : Prop := ∀ c ∈ splitOn '/' p, c = [] ∨ (c ≠ dot ∧ c ≠ dotdot)
+
+theorem normStep_clean (initial : Bool) (stk : List Str) (c : Str) (h1 : c ≠ []) (h2 : c ≠ dot)
+    (h3 : c ≠ dotdot) : normStep initial stk c = c :: stk := by
+  unfold normStep
+  simp [h1, h2, h3]
+
+theorem normStep_nil (initial : Bool) (stk : List Str) : normStep initial stk [] = stk := by
+  simp [normStep]
+
+theorem foldl_normStep_clean (initial : Bool) (l : List Str)
+    (h : ∀ c ∈ l, c = [] ∨ (c ≠ dot ∧ c ≠ dotdot)) (stk : List Str) :
+    l.foldl (normStep initial) stk = (l.filter fun c => c ≠ []).reverse ++ stk := by
+  induction l generalizing stk with
+  | nil => simp
+  | cons c cs ih =>
+    simp only [List.foldl_cons]
+    rw [ih (fun x hx => h x (List.mem_cons_of_mem _ hx))]
+    rcases h c List.mem_cons_self with rfl | ⟨h2, h3⟩
+    · simp [normStep_nil]
+    · by_cases h1 : c = []
+      · subst h1; simp [normStep_nil]
+      · rw [normStep_clean initial stk c h1 h2 h3]
+        simp [h1]
+
+/-- `normpath` keeps every component of a path that has no `.`/`..` pieces. -/
+theorem normComps_cleanSplit (p : Str) (h : CleanSplit p) : normComps p = comps p := by
+  unfold normComps comps
+  rw [foldl_normStep_clean _ _ h]
+  simp
+
+end Path
+
+namespace Path
+
+/-- An absolute path string in `normpath` normal form: one or two slashes, then clean names
+joined by single slashes. -/
+def NormalAbs (root : Str) : Prop :=
+  ∃ (n : Nat) (cs : List Str), (n = 1 ∨ n = 2) ∧
+    (∀ c ∈ cs, c ≠ [] ∧ c ≠ dot ∧ c ≠ dotdot ∧ '/' ∉ c) ∧
+    root = List.replicate n '/' ++ joinWith '/' cs
+
+theorem normalAbs_normpath (p : Str) (h : isAbs p = true) : NormalAbs (normpath p) := by
+  have h0 : initialSlashes p ≠ 0 := by
+    intro e; rw [initialSlashes_eq_zero] at e; rw [h] at e; exact absurd e (by decide)
+  have hle := initialSlashes_le p
+  obtain ⟨_, h2⟩ := comps_normpath_abs p h
+  refine ⟨initialSlashes p, normComps p, by omega, h2, ?_⟩
+  rw [normpath_eq]; simp [h0]
+
+theorem normalAbs_comps {root : Str} {n : Nat} {cs : List Str}
+    (hc : ∀ c ∈ cs, c ≠ [] ∧ c ≠ dot ∧ c ≠ dotdot ∧ '/' ∉ c)
+    (hr : root = List.replicate n '/' ++ joinWith '/' cs) : comps root = cs := by
+  rw [hr, comps_replicate_sep, comps_joinWith]
+  intro c h; exact ⟨(hc c h).1, (hc c h).2.2.2⟩
+
+theorem comps_join2 (root p : Str) (hrel : isAbs p = false) :
+    comps (join2 root p) = comps root ++ comps p := by
+  unfold join2
+  simp only [hrel, Bool.false_eq_true, if_false]
+  split
+  · rename_i h1
+    rcases h1 with rfl | h1
+    · simp [comps_nil]
+    · simp only [endsWithSep, decide_eq_true_eq] at h1
+      obtain ⟨r, rfl⟩ := List.getLast?_eq_some_iff.mp h1
+      rw [List.append_assoc]
+      simp only [List.cons_append, List.nil_append]
+      rw [comps_append_sep, comps_append_sep, comps_nil, List.append_nil]
+  · exact comps_append_sep root p
+
+theorem initialSlashes_one (c : Char) (cs : Str) (h : c ≠ '/') : initialSlashes ('/' :: c :: cs) = 1 := by
+  unfold initialSlashes
+  split
+  · rfl
+  · rename_i heq; simp at heq; exact absurd heq.1 h
+  · rfl
+  · rename_i h3; exact absurd rfl (h3 _)
+
+theorem initialSlashes_two (c : Char) (cs : Str) (h : c ≠ '/') :
+    initialSlashes ('/' :: '/' :: c :: cs) = 2 := by
+  unfold initialSlashes
+  split
+  · rename_i heq; simp at heq; exact absurd heq.1 h
+  · rfl
+  · rename_i h2 heq
+    simp only [List.cons.injEq, true_and] at heq
+    exact (h2 (c :: cs) heq.symm).elim
+  · rename_i h3; exact absurd rfl (h3 _)
+
+theorem initialSlashes_replicate (n : Nat) (hn : n = 1 ∨ n = 2) (s : Str) (hs : s.head? ≠ some '/') :
+    initialSlashes (List.replicate n '/' ++ s) = n := by
+  rcases hn with rfl | rfl
+  · cases s with
+    | nil => rfl
+    | cons c cs => exact initialSlashes_one c cs (by simpa using hs)
+  · cases s with
+    | nil => rfl
+    | cons c cs => exact initialSlashes_two c cs (by simpa using hs)
+
+theorem joinWith_head (cs : List Str) (x : Str) (hx : x ≠ []) :
+    (joinWith '/' (x :: cs)).head? = x.head? := by
+  cases cs with
+  | nil => rfl
+  | cons y r =>
+    rw [joinWith_cons_cons]
+    cases x with
+    | nil => exact absurd rfl hx
+    | cons a b => rfl
+
+theorem isPrefixOf_append_self (a b : Str) : a.isPrefixOf (a ++ b) = true := by
+  simp [List.isPrefixOf_iff_prefix]
+
+end Path
+
+namespace C18
+open Path
+
+/-- **Completeness of the constraint.** A relative name without `.`/`..` components is always
+accepted by the separator-terminated test, and resolves to the root's components followed by
+the name's components. -/
+theorem accepts (k : Cfg) (hk : k.contain = .sepTerminated) (cwd : Str) (fs : RawFS)
+    (hroot : NormalAbs fs.root) (p : Str)
+    (hrel : isAbs (if k.foldSlash then replaceBS p else p) = false)
+    (hclean : ∀ c ∈ comps (if k.foldSlash then replaceBS p else p), c ≠ dot ∧ c ≠ dotdot) :
+    ∃ q, resolve k cwd fs p = .ok q ∧
+      comps q = comps fs.root ++ comps (if k.foldSlash then replaceBS p else p) := by
+  generalize hp' : (if k.foldSlash then replaceBS p else p) = p' at hrel hclean ⊢
+  obtain ⟨n, cs, hn, hcs, hr⟩ := hroot
+  have hcr := normalAbs_comps hcs hr
+  have habs : isAbs fs.root = true := by
+    rw [hr]; rcases hn with rfl | rfl <;> simp [isAbs, List.replicate]
+  have hJ : isAbs (join2 fs.root p') = true := isAbs_join2 _ _ habs
+  have hcJ : comps (join2 fs.root p') = cs ++ comps p' := by rw [comps_join2 _ _ hrel, hcr]
+  -- normpath keeps all components
+  have hclJ : CleanSplit (join2 fs.root p') := by
+    intro c hc
+    by_cases he : c = []
+    · exact Or.inl he
+    · right
+      have : c ∈ comps (join2 fs.root p') := by
+        simp only [comps, List.mem_filter, decide_eq_true_eq]; exact ⟨hc, he⟩
+      rw [hcJ] at this
+      rcases List.mem_append.mp this with h | h
+      · exact ⟨(hcs c h).2.1, (hcs c h).2.2.1⟩
+      · exact hclean c h
+  have hnc : normComps (join2 fs.root p') = cs ++ comps p' := by
+    rw [normComps_cleanSplit _ hclJ, hcJ]
+  -- leading slashes are those of the root
+  have his : initialSlashes (join2 fs.root p') = n := by
+    have hform : ∃ s, join2 fs.root p' = List.replicate n '/' ++ s ∧ s.head? ≠ some '/' := by
+      unfold join2
+      simp only [hrel, Bool.false_eq_true, if_false]
+      cases cs with
+      | nil =>
+        have hr' : fs.root = List.replicate n '/' := by rw [hr]; simp [joinWith]
+        have hends : endsWithSep fs.root = true := by
+          rw [hr']; rcases hn with rfl | rfl <;> simp [endsWithSep, List.replicate]
+        simp only [hends, or_true, if_true]
+        refine ⟨p', by rw [hr'], ?_⟩
+        simpa [isAbs] using hrel
+      | cons x r =>
+        have hx := hcs x List.mem_cons_self
+        have hh : (joinWith '/' (x :: r)).head? ≠ some '/' := by
+          rw [joinWith_head r x hx.1]
+          cases x with
+          | nil => exact absurd rfl hx.1
+          | cons a b =>
+            simp only [List.head?_cons, ne_eq, Option.some.injEq]
+            intro e; exact hx.2.2.2 (e ▸ List.mem_cons_self)
+        have hne : joinWith '/' (x :: r) ≠ [] := by
+          intro e; rw [e] at hh
+          cases hx' : x with
+          | nil => exact hx.1 hx'
+          | cons a b =>
+            have := joinWith_head r x hx.1
+            rw [e, hx'] at this; simp at this
+        split
+        · refine ⟨joinWith '/' (x :: r) ++ p', by rw [hr, List.append_assoc], ?_⟩
+          cases hj : joinWith '/' (x :: r) with
+          | nil => exact absurd hj hne
+          | cons a b => rw [hj] at hh; simpa using hh
+        · refine ⟨joinWith '/' (x :: r) ++ '/' :: p', by rw [hr, List.append_assoc], ?_⟩
+          cases hj : joinWith '/' (x :: r) with
+          | nil => exact absurd hj hne
+          | cons a b => rw [hj] at hh; simpa using hh
+    obtain ⟨s, hs1, hs2⟩ := hform
+    rw [hs1]; exact initialSlashes_replicate n hn s hs2
+  have hq : abspath cwd (join2 fs.root p') = List.replicate n '/' ++ joinWith '/' (cs ++ comps p') := by
+    have hn0 : n ≠ 0 := by omega
+    simp only [abspath, hJ, if_true]
+    rw [normpath_eq, his, hnc]
+    simp [hn0]
+  refine ⟨abspath cwd (join2 fs.root p'), ?_, ?_⟩
+  · unfold resolve
+    have hin : inside k.contain fs.root (abspath cwd (join2 fs.root p')) = true := by
+      rw [hk, hq]
+      simp only [inside, Bool.or_eq_true, beq_iff_eq]
+      cases hpc : comps p' with
+      | nil => left; rw [hr]; simp
+      | cons y ys =>
+        right
+        cases cs with
+        | nil =>
+          have hr' : fs.root = List.replicate n '/' := by rw [hr]; simp [joinWith]
+          have hends : endsWithSep fs.root = true := by
+            rw [hr']; rcases hn with rfl | rfl <;> simp [endsWithSep, List.replicate]
+          have : join2 fs.root [] = fs.root := by
+            unfold join2; simp [isAbs, hends]
+          rw [this, hr']
+          simp [List.isPrefixOf_iff_prefix]
+        | cons x r =>
+          rw [joinWith_append '/' (x :: r) y ys (by simp), ← List.append_assoc, ← hr]
+          unfold join2
+          have e0 : isAbs ([] : Str) = false := by decide
+          simp only [e0, Bool.false_eq_true, if_false, List.append_nil]
+          split
+          · exact isPrefixOf_append_self _ _
+          · have : fs.root ++ '/' :: joinWith '/' (y :: ys) = (fs.root ++ ['/']) ++ joinWith '/' (y :: ys) := by simp
+            rw [this]; exact isPrefixOf_append_self _ _
+    simp only [hp', hin, Bool.not_true, Bool.and_false, Bool.false_eq_true, if_false]
+  · rw [hq, comps_replicate_sep, comps_joinWith, hcr]
+    intro c hc
+    rcases List.mem_append.mp hc with h | h
+    · exact ⟨(hcs c h).1, (hcs c h).2.2.2⟩
+    · exact mem_comps p' c h
+
+end C18
